@@ -212,6 +212,8 @@ def program(rng, **kw):
     bias = kw.pop("roles_bias", False)      # make multi-role structs (result + host, vertex + host, ...) likely
     allow_bool = kw.pop("allow_bool", False)  # structs with bool / vecN<bool> members (private / workgroup variables only)
     use_alias = kw.pop("aliases", True)
+    result_as_vin = kw.pop("result_as_vertex_input", False)   # a struct that is a vertex parameter AND an entry point result (C08 only:
+    #                                                            the generated module does not compile - listed finding of C01 / C07)
     g = Gen(rng, **kw)
     if use_alias and rng.random() < 0.35:
         g.aliases = {}
@@ -318,6 +320,14 @@ def program(rng, **kw):
         globals_.append((rng.choice(["private", "workgroup"]), "g%d" % b, fl, b))
         used_by_global.append(fl)
         b += 1
+    # a struct reachable ONLY through a workgroup array whose length is an override (naga: ArraySize::Pending)
+    ov_tile = False
+    if rng.random() < 0.12:
+        ov_tile = True
+        tin = Ty("struct", name="TileCell", members=[("w", Ty("scalar", s="f32")), ("id", Ty("vec", n=2, s="u32"))], has_rts=False)
+        tile = Ty("struct", name="Tile", members=[("sum", Ty("vec", n=4, s="f32")), ("cells", Ty("array", elem=tin, n=2)), ("n", Ty("scalar", s="u32"))], has_rts=False)
+        grid_structs += [tin, tile]
+        used_by_global.append(tile)
     # vertex inputs / interstage / fragment outputs
     vin, inter, fout = [], None, None
     io_lines = []
@@ -435,6 +445,8 @@ def program(rng, **kw):
     if g.aliases:
         for txt, nm in g.aliases.items():
             lines.insert(alias_lines_at, "alias %s = %s;" % (nm, txt[3:] if txt.startswith("io:") else txt))
+    if ov_tile:
+        lines.append("override tile_count: u32 = 4u;\nvar<workgroup> tiles: array<Tile, tile_count>;")
     for sp, n, t, bi in globals_:
         q = {"uniform": "@group(0) @binding(%d) var<uniform> " % bi, "storage_ro": "@group(0) @binding(%d) var<storage, read> " % bi,
              "storage_rw": "@group(0) @binding(%d) var<storage, read_write> " % bi, "private": "var<private> ", "workgroup": "var<workgroup> "}[sp]
@@ -473,6 +485,12 @@ def program(rng, **kw):
         lines.append("@compute @workgroup_size(1) fn cs_main() { %s }" % body_local)
         entries.append("cs_main")
 
+    if result_as_vin and rng.random() < 0.3:
+        # Tint is the result of a fragment entry point AND a vertex parameter (not reachable from any variable): an entry
+        # point result is not emitted, whichever stage also takes it as a parameter
+        lines.append("struct Tint {\n  @location(7) rgba: vec4<f32>,\n}")
+        lines.append("@fragment fn fs_tint() -> Tint { var o: Tint; return o; }")
+        lines.append("@vertex fn vs_tinted(tint: Tint) -> @builtin(position) vec4<f32> { return tint.rgba; }")
     # ---- ground truth
     host = {}
     for t in used_by_global:
@@ -520,6 +538,10 @@ def program(rng, **kw):
             truth.append({"name": n, "host": n in host, "rts": bool(getattr(s, "has_rts", False)),
                           "size": s.size(), "offsets": [(mn, off) for mn, off in s.offsets() if mn not in bi],
                           "members": [(mn, mt.shape()) for mn, mt in s.members if mn not in bi]})
+    if rng.random() < 0.12:
+        # many more types than a machine word has bits, declared first (every struct then has a large type handle)
+        npad = rng.choice([40, 61, 70, 100, 130, 200, 260])
+        lines.insert(0, "\n".join("var<private> pad_%d: array<f32, %d>;" % (k, k + 2) for k in range(npad)))
     return {"wgsl": "\n".join(lines) + "\n", "truth": truth, "needs_encase": rts_struct is not None or twins_rts}
 
 
